@@ -1,1 +1,871 @@
-fn main() { eprintln!("engine not built yet"); std::process::exit(2); }
+//! C09 — Writer delivers exactly the formatted bytes, in order, whatever the fill level of its buffer
+//! when a write starts, however the sink accepts them, in both build profiles; and the Reader reads the
+//! text back to the original values.
+//!
+//! The writer's only state is its fill level (0..=B, B observed at run time).  ALL (or, quick, the
+//! boundary-dense subset of) fill levels x a write alphabet (every integer type and every rendered
+//! length 1..=40, chars, strings around 0/45/B/2B, vectors, tuples of arity 2..8) x {flush, drop};
+//! sink deviations (partial acceptance, Interrupted) enumerated up to two per execution; every value of
+//! the 8- and 16-bit integer types (thorough: of u32/i32) rendered and compared with `to_string()`.
+//! The same enumeration runs in a second binary built with debug assertions (flush-per-write) and both
+//! must produce the same bytes.
+
+use rayon::prelude::*;
+use rlib_io::make_output_macro_;
+use rlib_io::{Reader, Writer};
+use serde::{Deserialize, Serialize};
+use std::cell::{Cell, RefCell};
+use std::io::Write;
+use vcore::*;
+
+#[derive(Clone, Debug, Serialize, Deserialize, PartialEq)]
+enum IntVal {
+    I8(i8),
+    U8(u8),
+    I16(i16),
+    U16(u16),
+    I32(i32),
+    U32(u32),
+    I64(i64),
+    U64(u64),
+    I128(i128),
+    U128(u128),
+    Isize(isize),
+    Usize(usize),
+}
+
+impl IntVal {
+    fn render(&self) -> String {
+        match self {
+            IntVal::I8(v) => v.to_string(),
+            IntVal::U8(v) => v.to_string(),
+            IntVal::I16(v) => v.to_string(),
+            IntVal::U16(v) => v.to_string(),
+            IntVal::I32(v) => v.to_string(),
+            IntVal::U32(v) => v.to_string(),
+            IntVal::I64(v) => v.to_string(),
+            IntVal::U64(v) => v.to_string(),
+            IntVal::I128(v) => v.to_string(),
+            IntVal::U128(v) => v.to_string(),
+            IntVal::Isize(v) => v.to_string(),
+            IntVal::Usize(v) => v.to_string(),
+        }
+    }
+    fn write(&self, w: &mut Writer) {
+        match self {
+            IntVal::I8(v) => w.write(v),
+            IntVal::U8(v) => w.write(v),
+            IntVal::I16(v) => w.write(v),
+            IntVal::U16(v) => w.write(v),
+            IntVal::I32(v) => w.write(v),
+            IntVal::U32(v) => w.write(v),
+            IntVal::I64(v) => w.write(v),
+            IntVal::U64(v) => w.write(v),
+            IntVal::I128(v) => w.write(v),
+            IntVal::U128(v) => w.write(v),
+            IntVal::Isize(v) => w.write(v),
+            IntVal::Usize(v) => w.write(v),
+        }
+    }
+    fn read_back(&self, r: &mut Reader) -> String {
+        match self {
+            IntVal::I8(_) => r.read::<i8>().to_string(),
+            IntVal::U8(_) => r.read::<u8>().to_string(),
+            IntVal::I16(_) => r.read::<i16>().to_string(),
+            IntVal::U16(_) => r.read::<u16>().to_string(),
+            IntVal::I32(_) => r.read::<i32>().to_string(),
+            IntVal::U32(_) => r.read::<u32>().to_string(),
+            IntVal::I64(_) => r.read::<i64>().to_string(),
+            IntVal::U64(_) => r.read::<u64>().to_string(),
+            IntVal::I128(_) => r.read::<i128>().to_string(),
+            IntVal::U128(_) => r.read::<u128>().to_string(),
+            IntVal::Isize(_) => r.read::<isize>().to_string(),
+            IntVal::Usize(_) => r.read::<usize>().to_string(),
+        }
+    }
+}
+
+#[derive(Clone, Debug, Serialize, Deserialize, PartialEq)]
+enum WAct {
+    Int(IntVal),
+    Ch(u8),
+    /// &str of this length (content = position pattern with this salt)
+    Str(usize, u8),
+    /// owned String
+    Owned(usize, u8),
+    VecI64(Vec<i64>),
+    VecStr(Vec<usize>),
+    VecVec,
+    Tup(u8),
+    /// the out!/outln! macros of output_macro.rs
+    Macro(u8),
+}
+
+fn pattern(len: usize, salt: u8) -> String {
+    // position-dependent letters: loss, duplication or reordering of a piece changes the text
+    (0..len).map(|i| (b'a' + ((i * 7 + 3 + salt as usize) % 26) as u8) as char).collect()
+}
+
+static FILL_BASE: std::sync::OnceLock<String> = std::sync::OnceLock::new();
+
+/// the string that brings the buffer to fill level f: letters, the last byte a space (so that the next
+/// token is separated for the read-back)
+fn filler(f: usize) -> String {
+    if f == 0 {
+        return String::new();
+    }
+    let base = FILL_BASE.get_or_init(|| pattern(1 << 18, 11));
+    let mut s = if f - 1 <= base.len() { base[..f - 1].to_string() } else { pattern(f - 1, 11) };
+    s.push(' ');
+    s
+}
+
+const T8: (i8, u8, i16, u16, i32, u32, i64, &str) = (i8::MIN, u8::MAX, i16::MIN, u16::MAX, i32::MIN, u32::MAX, i64::MIN, "end");
+
+impl WAct {
+    fn expected(&self) -> String {
+        match self {
+            WAct::Int(v) => v.render(),
+            WAct::Ch(c) => (*c as char).to_string(),
+            WAct::Str(n, s) | WAct::Owned(n, s) => pattern(*n, *s),
+            WAct::VecI64(v) => v.iter().map(|x| x.to_string()).collect::<Vec<_>>().join(" "),
+            WAct::VecStr(ls) => ls.iter().enumerate().map(|(i, l)| pattern(*l, i as u8)).collect::<Vec<_>>().join(" "),
+            WAct::VecVec => "1 2 3 4".to_string(),
+            WAct::Tup(k) => {
+                let f: [String; 8] = [T8.0.to_string(), T8.1.to_string(), T8.2.to_string(), T8.3.to_string(), T8.4.to_string(), T8.5.to_string(), T8.6.to_string(), T8.7.to_string()];
+                // arity k uses the LAST k fields so that every arity ends with the string field
+                f[8 - *k as usize..].join(" ")
+            }
+            WAct::Macro(0) => "1 two -3\n".to_string(),
+            WAct::Macro(1) => "\n".to_string(),
+            WAct::Macro(2) => "x 18446744073709551615".to_string(),
+            WAct::Macro(_) => "7\n8 9\n".to_string(),
+        }
+    }
+
+    fn apply(&self, w: &mut Writer) {
+        match self {
+            WAct::Int(v) => v.write(w),
+            WAct::Ch(c) => w.write_char(*c as char),
+            WAct::Str(n, s) => {
+                let p = pattern(*n, *s);
+                w.write(&p.as_str());
+            }
+            WAct::Owned(n, s) => w.write(&pattern(*n, *s)),
+            WAct::VecI64(v) => w.write(v),
+            WAct::VecStr(ls) => {
+                let v: Vec<String> = ls.iter().enumerate().map(|(i, l)| pattern(*l, i as u8)).collect();
+                w.write(&v)
+            }
+            WAct::VecVec => w.write(&vec![vec![1u8, 2], vec![3, 4]]),
+            WAct::Tup(k) => match k {
+                2 => w.write(&(T8.6, T8.7)),
+                3 => w.write(&(T8.5, T8.6, T8.7)),
+                4 => w.write(&(T8.4, T8.5, T8.6, T8.7)),
+                5 => w.write(&(T8.3, T8.4, T8.5, T8.6, T8.7)),
+                6 => w.write(&(T8.2, T8.3, T8.4, T8.5, T8.6, T8.7)),
+                7 => w.write(&(T8.1, T8.2, T8.3, T8.4, T8.5, T8.6, T8.7)),
+                _ => w.write(&T8),
+            },
+            WAct::Macro(_) => unreachable!("macro actions are applied by apply_macro"),
+        }
+    }
+}
+
+// ---------------------------------------------------------------------------------------------
+// the environment: a Write object whose every answer is chosen by the harness
+
+#[derive(Clone, Copy, Debug, PartialEq, Serialize, Deserialize)]
+enum WStep {
+    /// accept at most k bytes of what is offered (k >= 1)
+    Accept(usize),
+    Interrupted,
+}
+
+struct Sink<'a> {
+    out: &'a RefCell<Vec<u8>>,
+    plan: &'a [WStep],
+    next: usize,
+    calls: &'a Cell<usize>,
+    first_len: &'a Cell<usize>,
+}
+
+impl Write for Sink<'_> {
+    fn write(&mut self, buf: &[u8]) -> std::io::Result<usize> {
+        self.calls.set(self.calls.get() + 1);
+        if self.first_len.get() == 0 {
+            self.first_len.set(buf.len());
+        }
+        let step = if self.next < self.plan.len() {
+            self.next += 1;
+            self.plan[self.next - 1]
+        } else {
+            WStep::Accept(usize::MAX)
+        };
+        match step {
+            WStep::Interrupted => Err(std::io::Error::new(std::io::ErrorKind::Interrupted, "interrupted")),
+            WStep::Accept(k) => {
+                let n = k.min(buf.len());
+                self.out.borrow_mut().extend_from_slice(&buf[..n]);
+                Ok(n)
+            }
+        }
+    }
+    fn flush(&mut self) -> std::io::Result<()> {
+        Ok(())
+    }
+}
+
+#[derive(Clone, Debug, Serialize, Deserialize)]
+struct Case {
+    fill: usize,
+    acts: Vec<WAct>,
+    /// true: explicit flush() then drop; false: drop only
+    flush: bool,
+    plan: Vec<WStep>,
+}
+
+struct Exec {
+    out: Result<Vec<u8>, String>,
+    calls: usize,
+    first_len: usize,
+    /// sink length observed right after the explicit flush (before drop), if any
+    after_flush: Option<usize>,
+}
+
+fn run_case(c: &Case) -> Exec {
+    let out = RefCell::new(Vec::new());
+    let calls = Cell::new(0);
+    let first_len = Cell::new(0);
+    let after_flush = Cell::new(None);
+    let r = catch(|| {
+        let sink = Sink { out: &out, plan: &c.plan, next: 0, calls: &calls, first_len: &first_len };
+        // ManuallyDrop: if an operation panics the writer is leaked instead of dropped, so its Drop
+        // (which flushes and may panic again) cannot turn one panic into a process abort
+        let mut w = std::mem::ManuallyDrop::new(Writer::new(Box::new(sink)));
+        if c.fill > 0 {
+            let f = filler(c.fill);
+            w.write(&f.as_str());
+        }
+        let mut macro_acts = vec![];
+        for a in &c.acts {
+            if let WAct::Macro(k) = a {
+                macro_acts.push(*k);
+            } else {
+                a.apply(&mut w);
+            }
+        }
+        if !macro_acts.is_empty() {
+            // the macros rebind the identifiers they are given: run them last
+            let src: &[u8] = b"";
+            let rd = Reader::new(Box::new(src));
+            let wr = w;
+            rlib_io::make_output_macro!(rd, wr);
+            for k in macro_acts {
+                match k {
+                    0 => {
+                        outln!(1, "two", -3);
+                    }
+                    1 => {
+                        outln!();
+                    }
+                    2 => {
+                        out!("x", u64::MAX);
+                    }
+                    _ => {
+                        outln!(7);
+                        outln!(8, 9);
+                    }
+                }
+            }
+            if c.flush {
+                wr.flush();
+                after_flush.set(Some(out.borrow().len()));
+            }
+            drop(std::mem::ManuallyDrop::into_inner(wr));
+            let _ = rd;
+            return;
+        }
+        if c.flush {
+            w.flush();
+            after_flush.set(Some(out.borrow().len()));
+        }
+        drop(std::mem::ManuallyDrop::into_inner(w));
+    });
+    Exec { out: r.map(|_| out.borrow().clone()), calls: calls.get(), first_len: first_len.get(), after_flush: after_flush.get() }
+}
+
+fn expected_bytes(c: &Case) -> Vec<u8> {
+    let mut s = filler(c.fill);
+    // macro actions run after the others (see run_case)
+    for a in c.acts.iter().filter(|a| !matches!(a, WAct::Macro(_))) {
+        s.push_str(&a.expected());
+    }
+    for a in c.acts.iter().filter(|a| matches!(a, WAct::Macro(_))) {
+        s.push_str(&a.expected());
+    }
+    s.into_bytes()
+}
+
+fn diff_summary(got: &[u8], exp: &[u8]) -> String {
+    let p = got.iter().zip(exp.iter()).position(|(a, b)| a != b).unwrap_or(got.len().min(exp.len()));
+    let show = |v: &[u8]| -> String {
+        let a = p.saturating_sub(12);
+        let b = (p + 24).min(v.len());
+        format!("{:?}", String::from_utf8_lossy(&v[a..b]))
+    };
+    format!("sink has {} bytes, expected {}; first difference at offset {}: got …{}… expected …{}…", got.len(), exp.len(), p, show(got), show(exp))
+}
+
+/// Err(message) if the execution violates the property
+fn judge(c: &Case) -> Result<Exec, String> {
+    let ex = run_case(c);
+    let exp = expected_bytes(c);
+    match &ex.out {
+        Err(p) => return Err(format!("the writer panicked: {p}")),
+        Ok(got) => {
+            if *got != exp {
+                return Err(diff_summary(got, &exp));
+            }
+            if let Some(n) = ex.after_flush {
+                if n != exp.len() {
+                    return Err(format!("after flush() the sink had {} of the {} bytes written", n, exp.len()));
+                }
+            }
+        }
+    }
+    // read the text back with the real Reader
+    let got = ex.out.as_ref().unwrap();
+    if c.acts.len() == 1 {
+        let rb = catch(|| {
+            // the filler ends with a space: start reading right after it
+            let mut r = Reader::new(Box::new(&got[c.fill..]));
+            let consumed_all = match &c.acts[0] {
+                WAct::Int(v) => {
+                    let back = v.read_back(&mut r);
+                    if back != v.render() {
+                        return Err(format!("wrote {}, the reader read back {}", v.render(), back));
+                    }
+                    true
+                }
+                WAct::VecI64(v) => {
+                    let back: Vec<i64> = r.read_vec(v.len());
+                    if back != *v {
+                        return Err(format!("wrote {:?}, the reader read back {:?}", v, back));
+                    }
+                    true
+                }
+                WAct::Tup(8) => {
+                    let back: (i8, u8, i16, u16, i32, u32, i64, String) = r.read();
+                    if (back.0, back.1, back.2, back.3, back.4, back.5, back.6, back.7.as_str()) != T8 {
+                        return Err(format!("wrote {:?}, the reader read back {:?}", T8, back));
+                    }
+                    true
+                }
+                WAct::Tup(2) => {
+                    let back: (i64, String) = r.read();
+                    if (back.0, back.1.as_str()) != (T8.6, T8.7) {
+                        return Err(format!("wrote {:?}, the reader read back {:?}", (T8.6, T8.7), back));
+                    }
+                    true
+                }
+                WAct::Str(n, s) | WAct::Owned(n, s) if *n > 0 && *n <= 4096 => {
+                    let back: String = r.read();
+                    if back != pattern(*n, *s) {
+                        return Err(format!("wrote a {}-byte word, the reader read back a different {}-byte word", n, back.len()));
+                    }
+                    true
+                }
+                _ => false,
+            };
+            if consumed_all && !r.is_eof() {
+                return Err("the reader finds more input after the values written".to_string());
+            }
+            Ok(())
+        });
+        match rb {
+            Err(p) => return Err(format!("reading the text back panicked: {p}")),
+            Ok(Err(m)) => return Err(format!("round trip: {m}")),
+            Ok(Ok(())) => {}
+        }
+    }
+    Ok(ex)
+}
+
+// ---------------------------------------------------------------------------------------------
+
+fn int_alphabet() -> Vec<WAct> {
+    let mut v = vec![];
+    macro_rules! ext {
+        ($var:ident, $t:ty) => {
+            for x in [0 as $t, 1, <$t>::MIN, <$t>::MAX, <$t>::MAX / 2, 10, 99, 100] {
+                v.push(WAct::Int(IntVal::$var(x)));
+            }
+        };
+    }
+    ext!(I8, i8);
+    ext!(U8, u8);
+    ext!(I16, i16);
+    ext!(U16, u16);
+    ext!(I32, i32);
+    ext!(U32, u32);
+    ext!(I64, i64);
+    ext!(U64, u64);
+    ext!(I128, i128);
+    ext!(U128, u128);
+    ext!(Isize, isize);
+    ext!(Usize, usize);
+    for x in [-1i128, -9, -10] {
+        v.push(WAct::Int(IntVal::I8(x as i8)));
+        v.push(WAct::Int(IntVal::I64(x as i64)));
+        v.push(WAct::Int(IntVal::I128(x)));
+    }
+    // every rendered length 1..=39 (unsigned) and 2..=40 (negative)
+    let mut p: u128 = 1;
+    for _ in 0..39 {
+        v.push(WAct::Int(IntVal::U128(p)));
+        if p <= i128::MAX as u128 {
+            v.push(WAct::Int(IntVal::I128(-(p as i128))));
+        }
+        v.push(WAct::Int(IntVal::U128(p - 1 + p / 2)));
+        p = p.saturating_mul(10);
+    }
+    v.dedup();
+    v
+}
+
+fn alphabet(b: usize) -> Vec<WAct> {
+    let mut v = int_alphabet();
+    for c in [b'a', b'\n', b' '] {
+        v.push(WAct::Ch(c));
+    }
+    for (i, n) in [0usize, 1, 2, 44, 45, 46, b - 1, b, b + 1, 2 * b, 2 * b + 1].into_iter().enumerate() {
+        v.push(WAct::Str(n, i as u8));
+        v.push(WAct::Owned(n, i as u8 + 1));
+    }
+    v.push(WAct::VecI64(vec![1, -2, 3]));
+    v.push(WAct::VecI64(vec![]));
+    v.push(WAct::VecI64(vec![i64::MIN, i64::MAX, 0]));
+    v.push(WAct::VecStr(vec![3, 0, 45]));
+    v.push(WAct::VecVec);
+    for k in 2..=8 {
+        v.push(WAct::Tup(k));
+    }
+    for k in 0..4 {
+        v.push(WAct::Macro(k));
+    }
+    v
+}
+
+fn fill_levels(b: usize, quick: bool) -> Vec<usize> {
+    if !quick {
+        return (0..=b).collect();
+    }
+    let mut v: Vec<usize> = (0..=64).collect();
+    v.extend((b - 64..=b).collect::<Vec<_>>());
+    v.extend((0..=b).step_by(1021));
+    v.sort();
+    v.dedup();
+    v
+}
+
+fn observe_buffer_size() -> Option<usize> {
+    // one &str of 3*G bytes: the first flush hands the sink exactly one buffer-full
+    let c = Case { fill: 0, acts: vec![WAct::Str(1 << 20, 0)], flush: true, plan: vec![] };
+    let ex = run_case(&c);
+    // the length of the first write the sink was offered (recorded even if the execution later panics)
+    if ex.first_len == 0 {
+        return None;
+    }
+    Some(ex.first_len)
+}
+
+#[derive(Default)]
+struct Tot {
+    execs: u64,
+    flush_triggering: u64,
+    near_boundary: u64,
+    digest: u64,
+    fails: Vec<(usize, &'static str, Case, String)>,
+}
+
+fn merge(mut a: Tot, b: Tot) -> Tot {
+    a.execs += b.execs;
+    a.flush_triggering += b.flush_triggering;
+    a.near_boundary += b.near_boundary;
+    a.digest = a.digest.wrapping_add(b.digest);
+    a.fails.extend(b.fails);
+    a
+}
+
+fn run_family(name: &'static str, cases: &[Case], b: usize) -> Tot {
+    cases
+        .par_iter()
+        .enumerate()
+        .map(|(i, c)| {
+            let mut t = Tot { execs: 1, ..Default::default() };
+            match judge(c) {
+                Ok(ex) => {
+                    if ex.calls >= 2 {
+                        t.flush_triggering = 1;
+                    }
+                    if c.fill + 45 >= b && c.fill <= b {
+                        t.near_boundary = 1;
+                    }
+                    // order-independent digest of (case index, sink bytes): equal across build profiles
+                    t.digest = fnv(&[&(i as u64).to_le_bytes()[..], ex.out.as_ref().unwrap()].concat());
+                }
+                Err(m) => t.fails.push((i, name, c.clone(), m)),
+            }
+            t
+        })
+        .reduce(Tot::default, merge)
+}
+
+/// every value of a small integer type through one writer, compared with to_string()
+fn render_all<T: Copy + ToString + rlib_io::Writable + Send + Sync>(vals: &[T], sep: char) -> Result<u64, (usize, String)> {
+    let out = RefCell::new(Vec::new());
+    let calls = Cell::new(0);
+    let fl = Cell::new(0);
+    let r = catch(|| {
+        let sink = Sink { out: &out, plan: &[], next: 0, calls: &calls, first_len: &fl };
+        let mut w = std::mem::ManuallyDrop::new(Writer::new(Box::new(sink)));
+        for v in vals {
+            w.write(v);
+            w.write_char(sep);
+        }
+        drop(std::mem::ManuallyDrop::into_inner(w));
+    });
+    if let Err(p) = r {
+        return Err((0, format!("the writer panicked: {p}")));
+    }
+    let got = out.into_inner();
+    let mut pos = 0usize;
+    for (i, v) in vals.iter().enumerate() {
+        let e = v.to_string();
+        let eb = e.as_bytes();
+        if got.len() < pos + eb.len() + 1 || &got[pos..pos + eb.len()] != eb || got[pos + eb.len()] != sep as u8 {
+            let a = pos.min(got.len());
+            let z = (pos + eb.len() + 8).min(got.len());
+            return Err((i, format!("value {} rendered as {:?}…", e, String::from_utf8_lossy(&got[a..z]))));
+        }
+        pos += eb.len() + 1;
+    }
+    if pos != got.len() {
+        return Err((vals.len(), format!("{} extra bytes after the last value", got.len() - pos)));
+    }
+    Ok(vals.len() as u64)
+}
+
+/// One named batch of integers through one writer.  Err((value that was being rendered, message)).
+fn run_batch(name: &str, chunk: u32) -> Result<u64, (String, String)> {
+    macro_rules! all_small {
+        ($t:ty) => {{
+            let vals: Vec<$t> = (<$t>::MIN..=<$t>::MAX).collect();
+            render_all(&vals, '\n').map_err(|(i, m)| (vals.get(i).map(|v| v.to_string()).unwrap_or_default(), m))
+        }};
+    }
+    macro_rules! boundary {
+        ($t:ty) => {{
+            let mut vals: Vec<$t> = vec![0, 1, <$t>::MIN, <$t>::MAX, <$t>::MIN + 1, <$t>::MAX - 1];
+            let mut p: $t = 1;
+            loop {
+                vals.extend([p, p - 1, p.wrapping_add(1)]);
+                if <$t>::MIN != 0 {
+                    vals.extend([(0 as $t).wrapping_sub(p), (0 as $t).wrapping_sub(p).wrapping_sub(1), (0 as $t).wrapping_sub(p).wrapping_add(1)]);
+                }
+                match p.checked_mul(10) {
+                    Some(q) => p = q,
+                    None => break,
+                }
+            }
+            let mut p: $t = 1;
+            loop {
+                vals.extend([p, p - 1, p.wrapping_add(1), (0 as $t).wrapping_sub(p)]);
+                match p.checked_mul(2) {
+                    Some(q) => p = q,
+                    None => break,
+                }
+            }
+            render_all(&vals, ' ').map_err(|(i, m)| (vals.get(i).map(|v| v.to_string()).unwrap_or_default(), m))
+        }};
+    }
+    match name {
+        "all:i8" => all_small!(i8),
+        "all:u8" => all_small!(u8),
+        "all:i16" => all_small!(i16),
+        "all:u16" => all_small!(u16),
+        "boundary:i32" => boundary!(i32),
+        "boundary:u32" => boundary!(u32),
+        "boundary:i64" => boundary!(i64),
+        "boundary:u64" => boundary!(u64),
+        "boundary:i128" => boundary!(i128),
+        "boundary:u128" => boundary!(u128),
+        "boundary:isize" => boundary!(isize),
+        "boundary:usize" => boundary!(usize),
+        "chunk:u32" => {
+            let base = (chunk as u64) << 20;
+            let u: Vec<u32> = (0..(1u64 << 20)).map(|i| (base + i) as u32).collect();
+            render_all(&u, '\n').map_err(|(i, m)| (u.get(i).map(|v| v.to_string()).unwrap_or_default(), m))
+        }
+        "chunk:i32" => {
+            let base = (chunk as u64) << 20;
+            let s: Vec<i32> = (0..(1u64 << 20)).map(|i| (base + i) as u32 as i32).collect();
+            render_all(&s, '\n').map_err(|(i, m)| (s.get(i).map(|v| v.to_string()).unwrap_or_default(), m))
+        }
+        _ => Err((String::new(), format!("unknown batch {name}"))),
+    }
+}
+
+const BATCHES: &[&str] = &["all:i8", "all:u8", "all:i16", "all:u16", "boundary:i32", "boundary:u32", "boundary:i64", "boundary:u64", "boundary:i128", "boundary:u128", "boundary:isize", "boundary:usize"];
+
+fn rendering_pass(thorough: bool) -> (u64, Vec<(String, String, Value)>) {
+    let mut n = 0u64;
+    let mut fails = vec![];
+    for b in BATCHES {
+        match run_batch(b, 0) {
+            Ok(k) => n += k,
+            Err((val, m)) => fails.push((format!("render:{b}:{val}"), m, json!({"kind": "render", "batch": b, "chunk": 0}))),
+        }
+    }
+    if thorough {
+        // every u32 and every i32, 2^20 values per writer
+        let chunks: Vec<u32> = (0..(1u32 << 12)).collect();
+        for name in ["chunk:u32", "chunk:i32"] {
+            let res: Vec<(u32, Result<u64, (String, String)>)> = chunks.par_iter().map(|c| (*c, run_batch(name, *c))).collect();
+            let mut reported = false;
+            for (c, r) in res {
+                match r {
+                    Ok(k) => n += k,
+                    Err((val, m)) => {
+                        if !reported {
+                            reported = true;
+                            fails.push((format!("render:{name}:{val}"), m, json!({"kind": "render", "batch": name, "chunk": c})));
+                        }
+                    }
+                }
+            }
+        }
+    }
+    (n, fails)
+}
+
+fn confirm(v: &Value) -> Result<(), String> {
+    if v["kind"] == "render" {
+        return run_batch(v["batch"].as_str().unwrap_or(""), v["chunk"].as_u64().unwrap_or(0) as u32).map(|_| ()).map_err(|(val, m)| format!("at value {val}: {m}"));
+    }
+    if v["kind"] == "profile_digest" {
+        return Err("sink contents differ between the release and the debug-assertions build (re-run the check to compare)".into());
+    }
+    let c: Case = serde_json::from_value(v["case"].clone()).map_err(|e| e.to_string())?;
+    judge(&c).map(|_| ())
+}
+
+struct PassOut {
+    b: usize,
+    families: Vec<(&'static str, Tot, usize)>,
+    rendered: u64,
+    render_fails: Vec<(String, String, Value)>,
+}
+
+fn the_pass(quick: bool, with_rendering_thorough: bool) -> Result<PassOut, String> {
+    let b = observe_buffer_size().ok_or("could not observe the writer's buffer size")?;
+    if b < 1024 {
+        return Err(format!("observed buffer size {b} is implausible"));
+    }
+    let acts = alphabet(b);
+    let fills = fill_levels(b, quick);
+    let mut families = vec![];
+
+    // family 1: one write at every fill level, flush or drop
+    let mut cases = vec![];
+    for &f in &fills {
+        for a in &acts {
+            // the very long strings only at a reduced set of fill levels
+            let long = matches!(a, WAct::Str(n, _) | WAct::Owned(n, _) if *n >= b - 1);
+            if long && !(f <= 2 || f + 2 >= b || f % 4093 == 0) {
+                continue;
+            }
+            for flush in [true, false] {
+                cases.push(Case { fill: f, acts: vec![a.clone()], flush, plan: vec![] });
+            }
+        }
+    }
+    let n = cases.len();
+    families.push(("single_write", run_family("single_write", &cases, b), n));
+
+    // family 2: two writes after the fill (a flush between them must not repeat or lose anything)
+    let short_acts: Vec<WAct> = acts.iter().filter(|a| !matches!(a, WAct::Str(n, _) | WAct::Owned(n, _) if *n > 64)).cloned().collect();
+    let firsts: Vec<&WAct> = short_acts.iter().step_by(7).collect();
+    let mut cases = vec![];
+    for &f in fills.iter().filter(|f| **f + 80 >= b || **f <= 2) {
+        for a in &firsts {
+            for c in short_acts.iter().step_by(5) {
+                if matches!(a, WAct::Macro(_)) {
+                    continue;
+                }
+                cases.push(Case { fill: f, acts: vec![(*a).clone(), c.clone()], flush: f % 2 == 0, plan: vec![] });
+            }
+        }
+    }
+    let n = cases.len();
+    families.push(("two_writes", run_family("two_writes", &cases, b), n));
+
+    // family 3: sink deviations, up to two per execution
+    let mut plans: Vec<Vec<WStep>> = vec![];
+    for k in [1usize, 2, 45, b - 1] {
+        plans.push(vec![WStep::Accept(k)]);
+        plans.push(vec![WStep::Accept(k), WStep::Accept(1)]);
+        plans.push(vec![WStep::Accept(k), WStep::Interrupted]);
+        plans.push(vec![WStep::Interrupted, WStep::Accept(k)]);
+        plans.push(vec![WStep::Accept(usize::MAX), WStep::Accept(k)]);
+    }
+    plans.push(vec![WStep::Interrupted]);
+    plans.push(vec![WStep::Interrupted, WStep::Interrupted]);
+    plans.push(vec![WStep::Accept(usize::MAX), WStep::Interrupted]);
+    let mut cases = vec![];
+    let fault_fills: Vec<usize> = fills.iter().copied().filter(|f| *f + 48 >= b || *f <= 3 || *f % 16333 == 0).collect();
+    for &f in &fault_fills {
+        for a in short_acts.iter().step_by(9).chain(acts.iter().filter(|a| matches!(a, WAct::Str(n, _) if *n >= b - 1))) {
+            for p in &plans {
+                cases.push(Case { fill: f, acts: vec![a.clone()], flush: f % 2 == 1, plan: p.clone() });
+            }
+        }
+    }
+    let n = cases.len();
+    families.push(("sink_faults", run_family("sink_faults", &cases, b), n));
+
+    let (rendered, render_fails) = rendering_pass(with_rendering_thorough);
+    Ok(PassOut { b, families, rendered, render_fails })
+}
+
+fn main() {
+    let args = Args::parse();
+    quiet_panics();
+    if args.replay.is_some() {
+        Run::replay_main(&args, &confirm);
+    }
+    let quick = args.tier == Tier::Quick;
+    let debug_build = cfg!(debug_assertions);
+
+    if args.extra.first().map(|s| s.as_str()) == Some("--dbg-pass") {
+        // child mode: same enumeration in the debug-assertions build; one JSON line on stdout
+        let out = match the_pass(quick, false) {
+            Ok(p) => {
+                let fams: Vec<Value> = p
+                    .families
+                    .iter()
+                    .map(|(name, t, n)| {
+                        let first = t.fails.iter().min_by_key(|f| f.0).map(|(_, _, c, m)| json!({"case": c, "message": m}));
+                        json!({"name": name, "cases": n, "execs": t.execs, "digest": t.digest, "fails": t.fails.len(), "first_fail": first})
+                    })
+                    .collect();
+                json!({"ok": true, "debug_assertions": debug_build, "buffer": p.b, "families": fams, "rendered": p.rendered,
+                       "render_fails": p.render_fails.iter().map(|f| json!({"sig": f.0, "msg": f.1, "replay": f.2})).collect::<Vec<_>>()})
+            }
+            Err(m) => json!({"ok": false, "error": m}),
+        };
+        println!("{}", out);
+        std::process::exit(0);
+    }
+
+    if args.extra.first().map(|s| s.as_str()) == Some("--one-case") {
+        let c: Case = serde_json::from_str(&args.extra[1]).expect("case json");
+        match judge(&c) {
+            Ok(_) => println!("OK"),
+            Err(m) => println!("{m}"),
+        }
+        std::process::exit(0);
+    }
+
+    let mut run = Run::new(&args, "writer", "model_checking");
+    let p = match the_pass(quick, !quick) {
+        Ok(p) => p,
+        Err(m) => run.machinery_failure(&m),
+    };
+    run.cov("observed_buffer_size", p.b as u64);
+    run.cov("release_build_has_debug_assertions", debug_build);
+    let mut execs = 0u64;
+    let mut flushers = 0u64;
+    let mut near = 0u64;
+    let mut fam_json = vec![];
+    for (name, t, n) in &p.families {
+        execs += t.execs;
+        flushers += t.flush_triggering;
+        near += t.near_boundary;
+        fam_json.push(json!({"family": name, "cases": n, "failing": t.fails.len(), "executions_with_more_than_one_sink_write": t.flush_triggering, "writes_starting_within_45_bytes_of_the_boundary": t.near_boundary}));
+        if let Some((_, fam, c, m)) = t.fails.iter().min_by_key(|f| f.0) {
+            let sig = format!("{}:fill={}:acts={}:flush={}:plan={}", fam, c.fill, serde_json::to_string(&c.acts).unwrap().chars().take(200).collect::<String>(), c.flush, serde_json::to_string(&c.plan).unwrap());
+            run.violation(Violation::new(sig, format!("[{fam}, buffered build] fill level {} then {:?}, {}: {} ({} cases of this family fail)", c.fill, c.acts.iter().map(|a| format!("{:?}", a).chars().take(60).collect::<String>()).collect::<Vec<_>>(), if c.flush { "flush" } else { "drop" }, m, t.fails.len()), json!({"kind": "case", "case": c})));
+        }
+    }
+    for (sig, m, rep) in &p.render_fails {
+        run.violation(Violation::new(sig.clone(), format!("[integer rendering] {m}"), rep.clone()));
+    }
+
+    // the same enumeration in the debug-assertions build
+    let exe = std::env::current_exe().unwrap();
+    let dbg = std::path::PathBuf::from(exe.to_string_lossy().replace("/release/", "/dbg/"));
+    if !dbg.exists() || dbg == exe {
+        run.machinery_failure(&format!("the debug-assertions build {} does not exist", dbg.display()));
+    }
+    let o = std::process::Command::new(&dbg).args([args.prop.as_str(), args.tier.name(), "--dbg-pass"]).output();
+    let child: Value = match o {
+        Ok(o) if o.status.success() => serde_json::from_str(String::from_utf8_lossy(&o.stdout).lines().last().unwrap_or("")).unwrap_or(json!({"ok": false, "error": "unparseable output"})),
+        Ok(o) => json!({"ok": false, "error": format!("exit {:?}: {}", o.status, String::from_utf8_lossy(&o.stderr).chars().take(400).collect::<String>())}),
+        Err(e) => json!({"ok": false, "error": e.to_string()}),
+    };
+    if child["ok"] != true {
+        run.machinery_failure(&format!("debug-assertions pass failed: {}", child["error"]));
+    }
+    if child["debug_assertions"] != true {
+        run.machinery_failure("the dbg binary was not built with debug assertions");
+    }
+    let mut dbg_execs = 0u64;
+    for (i, f) in child["families"].as_array().cloned().unwrap_or_default().iter().enumerate() {
+        dbg_execs += f["execs"].as_u64().unwrap_or(0);
+        if let Some(ff) = f.get("first_fail").filter(|x| !x.is_null()) {
+            let c: Case = serde_json::from_value(ff["case"].clone()).unwrap();
+            let sig = format!("dbg:{}:fill={}:acts={}:flush={}:plan={}", f["name"].as_str().unwrap_or(""), c.fill, serde_json::to_string(&c.acts).unwrap().chars().take(200).collect::<String>(), c.flush, serde_json::to_string(&c.plan).unwrap());
+            run.violation(Violation::new(sig, format!("[{}, flush-per-write (debug assertions) build] fill {} {:?}: {}", f["name"], c.fill, c.acts, ff["message"]), json!({"kind": "dbg_case", "case": c})));
+        } else if quick && p.families[i].1.fails.is_empty() && f["digest"].as_u64() != Some(p.families[i].1.digest) {
+            run.violation(Violation::new(format!("profile_digest:{}", f["name"].as_str().unwrap_or("")), format!("family {}: the bytes reaching the sink differ between the buffered and the flush-per-write build", f["name"]), json!({"kind": "profile_digest"})));
+        }
+    }
+    for f in child["render_fails"].as_array().cloned().unwrap_or_default() {
+        run.violation(Violation::new(format!("dbg:{}", f["sig"].as_str().unwrap_or("")), format!("[integer rendering, debug build] {}", f["msg"]), f["replay"].clone()));
+    }
+
+    let states = fill_levels(p.b, quick).len() as u64;
+    run.cov("states", states);
+    run.cov("transitions", execs + dbg_execs);
+    run.cov("traces_validated_against_impl", execs + dbg_execs);
+    run.cov("evaluations", execs + dbg_execs + p.rendered);
+    run.cov("distinct_nontrivial", flushers);
+    run.cov("executions_buffered_build", execs);
+    run.cov("executions_debug_build", dbg_execs);
+    run.cov("integers_rendered", p.rendered);
+    run.cov("write_alphabet_size", alphabet(p.b).len() as u64);
+    run.cov("families", Value::Array(fam_json));
+    run.cov("exhaustive", !quick);
+    run.cov("rule", "state = fill level of the writer's buffer when a write starts (reached by one verbatim string); transitions = executions (fill, write action(s), flush|drop, sink plan) in the buffered build plus the same enumeration in the debug-assertions build; distinct_nontrivial = executions in which the sink received more than one write (a flush happened inside the history); thorough covers ALL B+1 fill levels, quick [0,64] ∪ [B-64,B] ∪ every 1021st");
+    let a = alphabet(p.b);
+    for (i, act) in a.iter().enumerate().step_by((a.len() / 5).max(1)) {
+        let c = Case { fill: p.b - (i % 45), acts: vec![act.clone()], flush: i % 2 == 0, plan: vec![] };
+        run.sample(json!({"fill_level": c.fill, "write": format!("{:?}", act).chars().take(80).collect::<String>(), "finish": if c.flush { "flush" } else { "drop" }, "expected_tail": String::from_utf8_lossy(&expected_bytes(&c)[c.fill..]).chars().take(60).collect::<String>()}));
+    }
+    run.assume("sinks never return Ok(0) for a non-empty buffer (std's write_all treats that as an error) and report no error other than Interrupted");
+    if !run.has_violations() && (near < 1000 || flushers < 1000) {
+        run.machinery_failure("too few writes started near the buffer boundary / triggered a flush");
+    }
+    let confirm2 = |v: &Value| -> Result<(), String> {
+        if v["kind"] == "dbg_case" {
+            // re-run that one case in the debug build
+            let o = std::process::Command::new(&dbg).args(["C09", "quick", "--one-case", &v["case"].to_string()]).output().map_err(|e| e.to_string())?;
+            let s = String::from_utf8_lossy(&o.stdout).trim().to_string();
+            return if s == "OK" { Ok(()) } else { Err(s) };
+        }
+        confirm(v)
+    };
+    run.finish(&confirm2)
+}
